@@ -42,6 +42,7 @@ func c17(c *Ctx) {
 		c.R.Undecided("C17.R5", "core/mapping#fresh", "per-iteration stores of reflect.New targets are recognised", fmt.Sprintf("%d found", n))
 	}
 	c17configCenterVerbatim(c)
+	c17yamlNotStrict(c, "C17.R17")
 }
 
 func c17paths(c *Ctx) {
